@@ -140,6 +140,13 @@ Section Codec.
     fs_read decompress S' p loc = FOk b.
   Proof. exact (read_after_write compress decompress). Qed.
 
+  (* ... and the existence queries and resolve then find it in the top layer *)
+  Theorem C12_queries_after_write : forall S p b loc S',
+    fs_write compress S p b loc = (S', FOk tt) ->
+    fs_file_exists S' p loc = FOk true /\ fs_exists S' p loc = FOk true /\
+    exists s, fs_resolve S' p loc = FOk (Some (length (layers S') - 1, s))%nat.
+  Proof. exact (queries_after_write compress decompress). Qed.
+
   (* the stored bytes are the codec's output for names with the compressed suffix, the payload itself otherwise *)
   Theorem C12_stored_form : forall S p b,
     encode_by_name compress S p b =
